@@ -172,6 +172,73 @@ func runAll(c *run.Ctx) {
 			}
 		}
 	}
+	// two lineal operands on ONE line (8 lattice directions incl. the axes): touching end to end at terminal
+	// vertices, overlapping, nested, or separated by a gap; as LineStrings (1-3 collinear segments),
+	// MultiLineStrings with empty members, or inside collections; both operand orders
+	for i := 0; i < c.N(600, 8000); i++ {
+		c.Case("collinear", i, func(k *run.K) {
+			r := k.Rng
+			dir := [][2]float64{{1, 0}, {0, 1}, {1, 1}, {1, -1}, {2, 1}, {1, 2}, {-1, 0}, {0, -1}}[r.Intn(8)]
+			ox, oy := float64(r.Range(-5, 5)), float64(r.Range(-5, 5))
+			at := func(t int) (float64, float64) { return ox + float64(t)*dir[0], oy + float64(t)*dir[1] }
+			mk := func(ts []int) geom.Geometry {
+				var fs []float64
+				for _, t := range ts {
+					x, y := at(t)
+					fs = append(fs, x, y)
+				}
+				ls := geom.NewLineStringXY(fs...)
+				switch r.Intn(4) {
+				case 1:
+					return geom.NewMultiLineString([]geom.LineString{{}, ls}).AsGeometry()
+				case 2:
+					return geom.NewGeometryCollection([]geom.Geometry{ls.AsGeometry(), geom.Point{}.AsGeometry()}).AsGeometry()
+				}
+				return ls.AsGeometry()
+			}
+			chain := func(lo, hi int) []int {
+				ts := []int{lo}
+				for t := lo + 1; t < hi; t++ {
+					if r.Chance(1, 3) {
+						ts = append(ts, t)
+					}
+				}
+				ts = append(ts, hi)
+				if r.Bool() {
+					for a, b := 0, len(ts)-1; a < b; a, b = a+1, b-1 {
+						ts[a], ts[b] = ts[b], ts[a]
+					}
+				}
+				return ts
+			}
+			a0 := r.Range(-4, 0)
+			a1 := a0 + r.Range(1, 4)
+			var b0, b1 int
+			switch r.Intn(4) {
+			case 0: // end to end
+				b0, b1 = a1, a1+r.Range(1, 4)
+			case 1: // gap
+				b0 = a1 + r.Range(1, 3)
+				b1 = b0 + r.Range(1, 3)
+			case 2: // overlap
+				b0 = a0 + r.Range(0, a1-a0)
+				b1 = a1 + r.Range(0, 3)
+				if b1 == b0 {
+					b1++
+				}
+			default: // nested
+				b0, b1 = a0-r.Range(0, 2), a1+r.Range(0, 2)
+			}
+			a, b := mk(chain(a0, a1)), mk(chain(b0, b1))
+			if r.Bool() {
+				a, b = b, a
+			}
+			k.In("a", shared.WKT(a))
+			k.In("b", shared.WKT(b))
+			k.Count("collinear_pairs", 1)
+			Pair(k, gen.DSmall, a, b)
+		})
+	}
 	// small extents far from the origin (general position): absolute-coordinate formulas lose their digits here
 	for i := 0; i < c.N(1200, 20000); i++ {
 		c.Case("offset", i, func(k *run.K) {
